@@ -31,6 +31,11 @@ def build_parser():
     """Generate the parser from the working tree's grammar. Returns its path (also exported in env)."""
     if os.environ.get("VERIF_PARSER") and os.path.exists(os.environ["VERIF_PARSER"]):
         return os.environ["VERIF_PARSER"]
+    base = os.path.join(VERIF, ".build")
+    if os.path.isdir(base):  # remove scratch dirs of dead processes
+        for name in os.listdir(base):
+            if name.isdigit() and not os.path.exists(f"/proc/{name}"):
+                shutil.rmtree(os.path.join(base, name), ignore_errors=True)
     d = os.path.join(VERIF, ".build", str(os.getpid()))
     os.makedirs(d, exist_ok=True)
     out = os.path.join(d, "parser.py")
